@@ -140,7 +140,7 @@ impl Profile {
 
 pub fn data_bytes(len_sel: u16, content: u16) -> Vec<u8> {
     // length classes 0, 1–7, 8, 9, 10–40
-    const L: [usize; 16] = [0, 1, 2, 3, 5, 7, 8, 8, 8, 9, 9, 9, 10, 16, 24, 40];
+    const L: [usize; 24] = [0, 0, 1, 2, 3, 5, 7, 7, 8, 8, 8, 9, 9, 9, 10, 15, 16, 17, 24, 40, 64, 255, 256, 300];
     let len = L[idx(len_sel, L.len())];
     (0..len)
         .map(|i| (content as usize).wrapping_mul(31).wrapping_add(i * 37 + 1) as u8)
